@@ -2,7 +2,7 @@
 # Thorough tier of every check on the unchanged tree, one after the other. Usage: tools/run_thorough.sh [seed]
 cd "$(dirname "$0")/.."
 export VERIF_SEED=${1:-0}
-./setup.sh > build/setup.log 2>&1 || { echo "setup failed"; tail -5 build/setup.log; exit 2; }
+mkdir -p build; ./setup.sh > build/setup.log 2>&1 || { echo "setup failed"; tail -5 build/setup.log; exit 2; }
 for c in C18 C09 C11 C13 C17 C12 C14 C15 C05 C06 C08 C19 C07 C10 C01 C02 C03 C04 C16; do
   s=$(date +%s)
   out=$(timeout 7200 ./check $c thorough 2>&1 | grep -v "^KNOWN-FINDING" | tail -3 | cut -c1-600)
